@@ -100,6 +100,12 @@ class Resolver:
                     field,
                     [self._res(v, at, depth + 1, stack, bound) if isinstance(v, ast.AST) and not isinstance(v, (ast.cmpop,)) else v for v in value],
                 )
+        if isinstance(new, ast.Subscript) and isinstance(new.value, (ast.Tuple, ast.List)) and isinstance(new.slice, ast.Constant) and isinstance(new.slice.value, int) \
+                and not isinstance(new.slice.value, bool) and 0 <= new.slice.value < len(new.value.elts) and not any(isinstance(x, ast.Starred) for x in new.value.elts):
+            return new.value.elts[new.slice.value]  # (a, b, c)[1] == b
+        if isinstance(new, ast.Call) and isinstance(new.func, ast.Name) and new.func.id == "tuple" and len(new.args) == 1 and not new.keywords and isinstance(new.args[0], (ast.Tuple, ast.List)) \
+                and not any(isinstance(x, ast.Starred) for x in new.args[0].elts):
+            return ast.copy_location(ast.Tuple(elts=list(new.args[0].elts), ctx=ast.Load()), new)  # tuple((a, b, c)) == (a, b, c)
         if isinstance(new, ast.Call) and isinstance(new.func, ast.Name) and new.func.id in ("max", "min") and len(new.args) == 1 and not new.keywords \
                 and isinstance(new.args[0], (ast.Tuple, ast.List)):
             new.args = list(new.args[0].elts)  # max((a, b, c)) == max(a, b, c)
